@@ -2,6 +2,7 @@
 # Build the framework from files on disk only (offline).  Regenerates the translated
 # tables from /repo's working tree, then builds every proof module and the driver protocol.
 set -e
+set -o pipefail
 HERE="$(cd "$(dirname "${BASH_SOURCE[0]}")" && pwd)"
 export PYTHONPATH="/repo:$HERE/harness:$HERE"
 export PYTHONDONTWRITEBYTECODE=1
